@@ -241,10 +241,20 @@ def worker(ctx):
             label = 'random:v%d' % version
             doc = GC.rand_doc(rng, version, max_blocks=6 if big else 3)
             w = GC.Writer(rng, version, magic=(version == 2 or rng.random() < 0.6), dense=rng.random() < 0.3,
-                          bom=(version == 2 and rng.random() < 0.1))
+                          bom=(version == 2 and rng.random() < (0.5 if i % 6 == 2 else 0.1)))
             if i % 3 == 0:
                 w.wide = 0.08
             text = w.document(doc)
+            if i % 6 == 2:
+                # inline blanks after the version comment, up to the line-length limit (with and without signature)
+                sig = 1 if text.startswith('\ufeff') else 0
+                head = text[sig:sig + 11]
+                if head in ('#\\#CIF_2.0\n', '#\\#CIF_1.1\n'):
+                    n = rng.choice([rng.randint(1, 12), rng.randint(2020, 2038 - sig), 2038 - sig, 2037 - sig, 2030 - sig])
+                    blanks = ''.join(rng.choice(' \t') for _ in range(n)) if rng.random() < 0.5 else ' ' * n
+                    text = text[:sig + 10] + blanks + text[sig + 10:]
+                    ctx.count('padded_version_comments')
+                    label += ':magic-pad'
             if i % 4 == 1:
                 # line terminators inside and between values read as a single newline whatever their style
                 from .C08 import restyle
@@ -288,6 +298,7 @@ def run(env):
                  'content it was written from',
             samples=res.samples, enumerated_family_documents=nfam, random_documents=nrand,
             large_documents_with_tokens_at_scan_buffer_compaction_points=res.count('deep_documents'),
+            documents_with_blank_padded_version_comment=res.count('padded_version_comments'),
             presentations_written=pres, family_labels=len(res.sets.get('labels', ())), crashes=res.crashes),
         violations=res.violations, inconclusive=inconclusive,
         assumptions=['the independent writer (vp/gen_cif.py) implements the CIF 2.0 / 1.1 grammars correctly',
